@@ -47,8 +47,8 @@ theorem update_ok (cfg : Cfg) (s s' : NState) (b : Nat) (d : Diff) (h : s.update
        let tl := writeSlots cfg (s.trie, s.leaves) d.storage
        let cl := purgeSys tl.1 (c5, tl.2) d.touched
        { contracts := cl.1, trie := tl.1, leaves := cl.2,
-         classes := declareFold s.classes b d.classHashes,
-         hist := histPutAll s.hist b d }) := by
+         classes := declareFold s.classes b d.newClasses,
+         hist := histPutAll cfg.histOrderFix s.hist b d }) := by
   unfold NState.update at h
   by_cases h1 : (d.deployed.any fun p => (bget s.contracts p.1).isSome) = true
   · simp [h1] at h
@@ -213,7 +213,7 @@ theorem ninv_store (cfg : Cfg) (ch : List Diff) (s s' : NState) (d : Diff) (hinv
     exact hold
   · intro key
     simp only
-    rw [histPutAll_get _ _ _ hwf, hinv.hist key]
+    rw [histPutAll_get _ _ _ _ hwf, hinv.hist key]
     simp only [histOf]
     rcases entryOf d key with _ | v
     · rfl
@@ -250,7 +250,7 @@ theorem ninv_store (cfg : Cfg) (ch : List Diff) (s s' : NState) (d : Diff) (hinv
     change _ = ((absOf ch).apply ch.length d).decl c
     simp only [AbsSt.apply]
     rcases hx : (absOf ch).decl c with _ | n
-    · by_cases hc : c ∈ d.classHashes <;> simp [hc]
+    · by_cases hc : c ∈ d.newClasses <;> simp [hc]
     · simp
 
 
@@ -267,7 +267,7 @@ theorem revert_ok (cfg : Cfg) (s s' : NState) (b : Nat) (d : Diff) (h : s.revert
        let x := deleteContracts (c4, tl.1, tl.2) d.deployed
        let cl := purgeSys x.2.1 (x.1, x.2.2) d.touched
        { contracts := cl.1, trie := x.2.1, leaves := cl.2,
-         classes := undeclareFold s.classes b d.classHashes,
+         classes := undeclareFold s.classes b d.revertClasses,
          hist := histDelAll s.hist b d }) := by
   unfold NState.revert at h
   simp only at h
@@ -481,7 +481,10 @@ theorem ninv_revert (cfg : Cfg) (d : Diff) (rest : List Diff) (s s' : NState) (h
     rw [undeclareFold_get, hinv.classes c, habs]
     simp only [AbsSt.apply]
     by_cases hx : (absOf rest).decl c = none
-    · by_cases hc : c ∈ d.classHashes <;> simp [hx, hc]
+    · by_cases hc : c ∈ d.newClasses
+      · have := newClasses_sub_revert d hwf c hc
+        simp [hx, hc, this]
+      · simp [hx, hc]
     · obtain ⟨n, hn⟩ := Option.ne_none_iff_exists'.mp hx
       have := decl_lt rest c n hn
       have hne : n ≠ rest.length := by omega
